@@ -48,7 +48,7 @@ Definition obj_at (g : graph) (k : nat) : obj :=
 Definition check_case (c : case) : list N :=
   match c with
   | CIds store objs edges oi ei =>
-      let g := snapshot store objs edges in
+      let g := snapshot store objs edges [] in
       flag ((length objs =? length oi) && (length edges =? length ei)) 1
       (* the model's ID, absolute ID and connection ID texts are the implementation's *)
       ++ flag (forallb (fun k => Graph.str_eqb (obj_id (o_name (obj_at g k))) (o_id (obj_at g k))) objs) 1
@@ -65,7 +65,7 @@ Definition check_case (c : case) : list N :=
       ++ flag (strs_nodup (map e_absid ei)) 14
       ++ flag (edges_distinct_b edges) 16
   | CParse store objs edges oi ei =>
-      let g := snapshot store objs edges in
+      let g := snapshot store objs edges [] in
       flag ((length objs =? length oi) && (length edges =? length ei)) 1
       ++ flag (forallb (fun ki => match snd ki with OInfo _ ip _ =>
                  match ip with Some [n] => Graph.str_eqb n (o_name (obj_at g (fst ki))) | _ => false end end)
